@@ -117,6 +117,21 @@ def bestFirstLoop (lt : C → C → Bool) (boxCost : B → C) (leafCost : B → 
 def bestFirst (lt : C → C → Bool) (boxCost : B → C) (leafCost : B → L → C) (t : Tree B L) : Option (Option (C × L)) :=
   bestFirstLoop lt boxCost leafCost (size t + 1) [(boxCost t.box, t)] none
 
+/-! ## simultaneous traversal of two trees (`traverse_bvtt`) -/
+
+/-- recursive two-tree traversal: a pair of subtrees is entered iff the pair predicate holds on their boxes; leaf/leaf
+pairs that pass are reported; a leaf against an internal node descends in the internal node only -/
+def pairs {B L : Type} (pp : B → B → Bool) : Nat → Tree B L → Tree B L → List (L × L)
+  | 0, _, _ => []
+  | f + 1, t1, t2 =>
+    if pp t1.box t2.box then
+      match t1, t2 with
+      | leaf _ d1, leaf _ d2 => [(d1, d2)]
+      | leaf b1 d1, node _ cs2 => cs2.flatMap fun c2 => pairs pp f (leaf b1 d1) c2
+      | node _ cs1, leaf b2 d2 => cs1.flatMap fun c1 => pairs pp f c1 (leaf b2 d2)
+      | node _ cs1, node _ cs2 => cs1.flatMap fun c1 => cs2.flatMap fun c2 => pairs pp f c1 c2
+    else []
+
 end Tree
 end Bvh
 end Model
